@@ -44,6 +44,11 @@ func (sc Script) run(tag string, recv int, st *Store) {
 			st.set(a.J, recv)
 		}
 	}
+	if sc.Pn == "nil" {
+		// a panic with a nil value (panic(err) with a nil error): with the semantics of go < 1.21 modules -
+		// go-co's own go.mod says 1.19 - recover() returns nil for it (vh sets //go:debug panicnil=1)
+		panic(nil)
+	}
 	if sc.Pn != "" {
 		panic(sc.Pn)
 	}
@@ -176,22 +181,30 @@ func RunOps(t *CTerm, ops []Op) string {
 	for _, op := range ops {
 		before := len(st.Log)
 		obs := func() (obs string) {
+			done := false
 			defer func() {
-				if r := recover(); r != nil {
-					obs = fmt.Sprintf("PANIC(%v)", r)
+				// a panic is recognised by the call not having returned - its value may be nil
+				if r := recover(); !done {
+					if r == nil {
+						obs = "PANIC(nil)"
+					} else {
+						obs = fmt.Sprintf("PANIC(%v)", r)
+					}
 				}
 			}()
 			switch op.K {
 			case OpM:
-				return fmt.Sprint(gen.MoveNext())
+				obs = fmt.Sprint(gen.MoveNext())
 			case OpC:
-				return fmt.Sprint(gen.Current())
+				obs = fmt.Sprint(gen.Current())
 			case OpR:
-				return fmt.Sprint(gen.Result())
+				obs = fmt.Sprint(gen.Result())
 			default:
 				v, ok := gen.Send(op.V)
-				return fmt.Sprintf("%d,%v", v, ok)
+				obs = fmt.Sprintf("%d,%v", v, ok)
 			}
+			done = true
+			return
 		}()
 		out = append(out, fmt.Sprintf("%s=%s[%s]", op, obs, strings.Join(st.Log[before:], ",")))
 	}
